@@ -236,6 +236,7 @@ func cmdCheck(args []string) int {
 			fmt.Printf("INCONCLUSIVE(build) lemma=%s: %s\n", spec.ID, l.BuildErr)
 			continue
 		}
+		l.pkg = pkg
 		l.explore(ws, entry)
 		status := "holds"
 		if len(l.ViolCount) > 0 {
@@ -309,6 +310,7 @@ func cmdCheck(args []string) int {
 	for _, vl := range violLines {
 		fmt.Println(vl)
 	}
+	dumpDecideProf()
 	wall := time.Since(t0).Seconds()
 	if !*noEvidence {
 		writeEvidence(*verifRoot, *prop, *tier, seed, runs, totalViol, wall, loadSec, n)
